@@ -68,6 +68,18 @@ pub enum Conv {
 }
 
 /// Convert a legacy LIDER text the way `parse_with_catalog` + `Model::try_from` would.
+/// The same conversion through the API that does not merge the LIDER catalogue.
+pub fn convert_no_catalog(kind: FileKind, text: &str) -> Result<Model, anyhow::Error> {
+    let d = match kind {
+        FileKind::Ctehexml => hulc::ctehexml::parse(text)?,
+        _ => hulc::ctehexml::CtehexmlData {
+            bdldata: hulc::bdl::Data::new(text)?,
+            ..Default::default()
+        },
+    };
+    Model::try_from(&d)
+}
+
 pub fn convert_cte(text: &str) -> Result<Model, anyhow::Error> {
     let mut data = hulc::bdl::Data::new(text)?;
     let cat = catalog();
@@ -247,6 +259,7 @@ pub fn run(ctx: &mut WorkerCtx, job: &Value) -> JobOutput {
     let level = job["level"].as_u64().unwrap_or(1);
     let e2e = job["e2e"].as_bool().unwrap_or(false);
     let want_closure = job["closure"].as_bool().unwrap_or(false);
+    let no_catalog = job["no_catalog"].as_bool().unwrap_or(false);
     let (kind, orig) = text_of(&rel);
     let damaged = match diskfault::apply(&orig, &edit) {
         Some(t) => t,
@@ -265,6 +278,7 @@ pub fn run(ctx: &mut WorkerCtx, job: &Value) -> JobOutput {
     let (res, out_bytes) = capture_stdout(|| {
         contain(|| -> Result<Option<Model>, anyhow::Error> {
             match (kind, e2e) {
+                (FileKind::Ctehexml | FileKind::Cte, _) if no_catalog => convert_no_catalog(kind, &damaged).map(Some),
                 (FileKind::Ctehexml, _) => convert_ctehexml(&damaged, level).map(Some),
                 (FileKind::Cte, _) => convert_cte(&damaged).map(Some),
                 (FileKind::Kyg, false) => hulc::kyg::parse(&damaged).map(|_| None),
